@@ -426,3 +426,118 @@ Proof.
 Qed.
 
 End Gen.
+
+(* ------------------------------------------------------------------ binary search *)
+Definition cnt (f : N -> bool) (keys : list N) : nat := length (filter f keys).
+Definition down_closed (f : N -> bool) : Prop := forall x y, x < y -> f y = true -> f x = true.
+
+Lemma cnt_zero f keys : Forall (fun k => f k = false) keys -> cnt f keys = O.
+Proof.
+  unfold cnt. induction 1 as [|k t Hk Ht IH]; cbn [filter]; [reflexivity|]. rewrite Hk. exact IH.
+Qed.
+(* on strictly increasing keys a downward closed predicate holds exactly on the first cnt positions *)
+Lemma sorted_index f keys : StronglySorted N.lt keys -> down_closed f ->
+  forall i k, nth_error keys i = Some k -> (f k = true <-> (i < cnt f keys)%nat).
+Proof.
+  intros Hs Hf. induction Hs as [|x t Hs IH Hx]; intros i k E; [destruct i; discriminate|].
+  unfold cnt in *. cbn [filter].
+  destruct (f x) eqn:Fx.
+  - destruct i as [|j]; cbn [nth_error] in E.
+    + inversion E; subst. cbn [length]. split; [lia|intros _; exact Fx].
+    + cbn [length]. rewrite (IH j k E). lia.
+  - assert (Hz : length (filter f t) = O).
+    { apply (cnt_zero f t). rewrite Forall_forall in *. intros y Hy.
+      destruct (f y) eqn:Fy; [|reflexivity]. rewrite (Hf x y (Hx y Hy) Fy) in Fx. discriminate. }
+    rewrite Hz. destruct i as [|j]; cbn [nth_error] in E.
+    + inversion E; subst. rewrite Fx. split; [discriminate|lia].
+    + apply nth_error_In in E. rewrite Forall_forall in Hx. specialize (Hx k E).
+      split; [|lia]. intros Fk. rewrite (Hf x k Hx Fk) in Fx. discriminate.
+Qed.
+Lemma cnt_le_lt keys a : StronglySorted N.lt keys ->
+  cnt (fun k => N.leb k a) keys = (cnt (fun k => N.ltb k a) keys + (if existsb (N.eqb a) keys then 1 else 0))%nat.
+Proof.
+  induction 1 as [|x t Hs IH Hx]; [reflexivity|].
+  unfold cnt in *. cbn [filter existsb].
+  destruct (N.leb_spec x a) as [H1|H1]; destruct (N.ltb_spec x a) as [H2|H2];
+    destruct (N.eqb_spec a x) as [H3|H3]; try (exfalso; lia); cbn [length orb].
+  - rewrite IH. lia.
+  - subst x.
+    assert (Z1 : length (filter (fun k => k <=? a) t) = O).
+    { apply (cnt_zero _ t). rewrite Forall_forall in *. intros y Hy. specialize (Hx y Hy).
+      destruct (N.leb_spec y a); [lia|reflexivity]. }
+    assert (Z2 : length (filter (fun k => k <? a) t) = O).
+    { apply (cnt_zero _ t). rewrite Forall_forall in *. intros y Hy. specialize (Hx y Hy).
+      destruct (N.ltb_spec y a); [lia|reflexivity]. }
+    rewrite Z1, Z2. destruct (existsb (N.eqb a) t); reflexivity.
+  - exact IH.
+Qed.
+
+Lemma cnt_le_len f keys : (cnt f keys <= length keys)%nat.
+Proof. unfold cnt. induction keys as [|x t IH]; cbn [filter length]; [lia|]. destruct (f x); cbn [length]; lia. Qed.
+Lemma half_facts size : 1 < size -> 1 <= size / 2 /\ size / 2 < size /\ 2 * (size / 2) <= size.
+Proof. intros H. lia. Qed.
+Lemma bs_loop_inv keys a (Hs : StronglySorted N.lt keys) :
+  forall n c, n = N.of_nat (length keys) -> c = N.of_nat (cnt (fun k => k <=? a) keys) ->
+  forall fuel base size,
+    1 <= size -> base + size <= n -> (base = 0 \/ base < c) -> c <= base + size ->
+    (N.to_nat size <= S fuel)%nat ->
+    exists b, bs_loop fuel keys a base size = Val b /\ b < n /\ (b = 0 \/ b < c) /\ c <= b + 1.
+Proof.
+  intros n c En Ec. induction fuel as [|f IH]; intros base size H1 H2 H3 H4 H5.
+  - assert (size = 1) by lia. subst size. cbn [bs_loop]. rewrite N.leb_refl.
+    exists base. split; [reflexivity|]. split; [lia|]. split; assumption.
+  - cbn [bs_loop]. destruct (N.leb_spec size 1) as [Hle|Hgt].
+    + assert (size = 1) by lia. subst size. exists base. split; [reflexivity|]. split; [lia|]. split; assumption.
+    + destruct (half_facts size Hgt) as (Hh1 & Hh2 & Hh3). remember (size / 2) as half eqn:Eh. clear Eh.
+      assert (Hmid : (N.to_nat (base + half) < length keys)%nat) by lia.
+      destruct (nth_error keys (N.to_nat (base + half))) as [k|] eqn:Ek;
+        [|apply nth_error_None in Ek; lia].
+      assert (Hd : down_closed (fun k => k <=? a)).
+      { intros x y Hxy Hy. apply N.leb_le in Hy. apply N.leb_le. lia. }
+      pose proof (sorted_index _ keys Hs Hd _ _ Ek) as Hidx.
+      destruct (N.ltb_spec a k) as [Hak|Hak].
+      * (* cmp == Greater: keep base *)
+        assert (Hn : ~ (N.to_nat (base + half) < cnt (fun k0 : N => N.leb k0 a) keys)%nat).
+        { intros Hc. apply Hidx in Hc. apply N.leb_le in Hc. lia. }
+        apply IH; try lia.
+      * assert (Hc : (N.to_nat (base + half) < cnt (fun k0 : N => N.leb k0 a) keys)%nat).
+        { apply Hidx. apply N.leb_le. lia. }
+        apply IH; try lia.
+Qed.
+
+(* the bisection of std meets the documented contract on strictly increasing keys:
+   it never runs out of fuel = len, never reads out of bounds, and returns Ok(i) with keys[i] = a
+   or Err(number of keys below a) *)
+Lemma binary_search_contract keys a : StronglySorted N.lt keys ->
+  binary_search keys a = Val (bs_contract keys a).
+Proof.
+  intros Hs. unfold binary_search, bs_contract, count_lt.
+  destruct (N.eqb_spec (N.of_nat (length keys)) 0) as [Hz|Hnz].
+  - destruct keys; [reflexivity|cbn [length] in Hz; lia].
+  - assert (Hinv : exists b, bs_loop (length keys) keys a 0 (N.of_nat (length keys)) = Val b /\
+                   b < N.of_nat (length keys) /\ (b = 0 \/ b < N.of_nat (cnt (fun k => k <=? a) keys)) /\
+                   N.of_nat (cnt (fun k => k <=? a) keys) <= b + 1).
+    { apply (bs_loop_inv keys a Hs _ _ eq_refl eq_refl); try lia.
+      pose proof (cnt_le_len (fun k => k <=? a) keys). lia. }
+    destruct Hinv as (b & Eb & Hb1 & Hb2 & Hb3).
+    rewrite Eb. cbn [bind].
+    destruct (nth_error keys (N.to_nat b)) as [k|] eqn:Ek; [|apply nth_error_None in Ek; lia].
+    assert (Hd1 : down_closed (fun k => k <=? a)).
+    { intros x y Hxy Hy. apply N.leb_le in Hy. apply N.leb_le. lia. }
+    assert (Hd2 : down_closed (fun k => k <? a)).
+    { intros x y Hxy Hy. apply N.ltb_lt in Hy. apply N.ltb_lt. lia. }
+    pose proof (sorted_index _ keys Hs Hd1 _ _ Ek) as I1.
+    pose proof (sorted_index _ keys Hs Hd2 _ _ Ek) as I2.
+    pose proof (cnt_le_lt keys a Hs) as Ec. fold (cnt (fun k => k <? a) keys).
+    remember (cnt (fun k => k <=? a) keys) as cle. remember (cnt (fun k => k <? a) keys) as clt.
+    rewrite N.leb_le in I1. rewrite N.ltb_lt in I2.
+    destruct (N.eqb_spec k a) as [Hka|Hka].
+    + subst k. assert (Hin : existsb (N.eqb a) keys = true).
+      { apply existsb_exists. exists a. split; [eapply nth_error_In; exact Ek|apply N.eqb_refl]. }
+      rewrite Hin in *. f_equal. f_equal. assert (N.to_nat b < cle)%nat by (apply I1; lia). lia.
+    + destruct (N.ltb_spec k a) as [Hlt|Hge].
+      * assert (N.to_nat b < clt)%nat by (apply I2; lia).
+        destruct (existsb (N.eqb a) keys); [exfalso; lia|]. f_equal. f_equal. lia.
+      * assert (Hn : ~ (N.to_nat b < cle)%nat) by (intros Hc; apply I1 in Hc; lia).
+        destruct (existsb (N.eqb a) keys); [exfalso; lia|]. f_equal. f_equal. lia.
+Qed.
